@@ -7,8 +7,9 @@ import PP.Model.Fp
 
 namespace PP
 
-/-- What the Rust code uses from `ff::Field` (method names in comments). -/
-class FieldOps (F : Type) extends Add F, Sub F, Mul F, Neg F, Zero F, One F where
+/-- What the Rust code uses from `ff::Field` beyond `+ - * neg 0 1`, which are taken from the core
+    notation classes so that the proof files can supply them from a `Field` instance. -/
+class FieldOps (F : Type) where
   /-- `square` -/
   sq : F → F
   /-- `double` -/
@@ -42,7 +43,7 @@ def bitsMSB : List Nat → List Bool
   | l :: ls => bitsMSB ls ++ wordBitsMSB l 64
 
 /-- `Field::pow`: MSB-first square-and-multiply with the `found_one` flag. -/
-def powLoop {F : Type} [FieldOps F] (a : F) : List Bool → F × Bool → F × Bool
+def powLoop {F : Type} [Mul F] [FieldOps F] (a : F) : List Bool → F × Bool → F × Bool
   | [], st => st
   | i :: bs, (res, found) =>
     let res1 := if found then sq res else res
@@ -50,14 +51,14 @@ def powLoop {F : Type} [FieldOps F] (a : F) : List Bool → F × Bool → F × B
     let res2 := if i then res1 * a else res1
     powLoop a bs (res2, found1)
 
-def powBits {F : Type} [FieldOps F] (a : F) (bits : List Bool) : F :=
+def powBits {F : Type} [Mul F] [One F] [FieldOps F] (a : F) (bits : List Bool) : F :=
   (powLoop a bits (1, false)).1
 
 /-- `a.pow(limbs)` -/
-def powLimbs {F : Type} [FieldOps F] (a : F) (limbs : List Nat) : F := powBits a (bitsMSB limbs)
+def powLimbs {F : Type} [Mul F] [One F] [FieldOps F] (a : F) (limbs : List Nat) : F := powBits a (bitsMSB limbs)
 
 /-- `a.pow(e)` for an exponent literal written with `k` limbs. -/
-def powNat {F : Type} [FieldOps F] (a : F) (e k : Nat) : F := powLimbs a (limbsOf k e)
+def powNat {F : Type} [Mul F] [One F] [FieldOps F] (a : F) (e k : Nat) : F := powLimbs a (limbsOf k e)
 
 inductive Legendre | zero | residue | nonResidue
 deriving DecidableEq, Repr
@@ -75,7 +76,7 @@ class SqrtOps (F : Type) where
   /-- `a < b` in the `Ord` instance of the Rust type -/
   lt : F → F → Bool
 
-def negateIf {F : Type} [FieldOps F] (a : F) (s : Sgn0) : F := if s = .negative then -a else a
+def negateIf {F : Type} [Neg F] (a : F) (s : Sgn0) : F := if s = .negative then -a else a
 
 namespace Zp
 variable {p : Nat} [PosNat p]
